@@ -118,7 +118,7 @@ let facts (sch : sdef list) (st : state) : string list =
   List.sort_uniq compare !out
 
 
-let parse_corruption () =
+let parse_corruption1 () =
   match next () with
   | "UD" -> let r = next_name () in let f = next_name () in let v = next_hex () in Some (XUDel (r, f, v))
   | "UP" -> let r = next_name () in let f = next_name () in let v = next_hex () in let i = next_hex () in Some (XUPut (r, f, v, i))
@@ -131,7 +131,17 @@ let parse_corruption () =
   | "EA" -> let r = next_name () in let i = next_hex () in let b = next_name () in let x = next_hex () in Some (XSetAdd (r, i, b, x))
   | "FS" -> let r = next_name () in let i = next_hex () in let f = next_name () in let v = next_hex () in Some (XField (r, i, f, v))
   | "FN" -> let r = next_name () in let i = next_hex () in let f = next_name () in Some (XFieldNil (r, i, f))
+  (* whole-bucket corruptions: the model state does not distinguish "bucket absent" (..DB) from "bucket present but empty" (..EB) *)
+  | "EDB" | "EEB" -> let r = next_name () in let i = next_hex () in let b = next_name () in Some (XSetClear (r, i, b))
+  | "SEK" -> let r = next_name () in let f = next_name () in let v = next_hex () in Some (XSClearKey (r, f, v))
   | t -> failwith ("bad corruption " ^ t)
+
+(* the index bucket of a symbol: the symbol is a unique index or a set index, the other map has no entry under (r, f) *)
+let parse_corruption () =
+  match peek () with
+  | Some ("XDB" | "XEB") ->
+      ignore (next ()); let r = next_name () in let f = next_name () in [XSClearIdx (r, f); XUClearIdx (r, f)]
+  | _ -> (match parse_corruption1 () with Some x -> [x] | None -> [])
 
 let kind_name = function
   | KUStale -> "KUStale" | KUWrong -> "KUWrong" | KUMissing -> "KUMissing" | KUConflict -> "KUConflict" | KNil -> "KNil"
@@ -159,7 +169,7 @@ let () =
       done;
       let cs = (match peek () with
         | Some "CORRUPT" -> ignore (next ()); let n = next_int () in
-            List.concat_map (fun c -> match c with Some x -> [x] | None -> []) (repeat n parse_corruption)
+            List.concat (repeat n parse_corruption)
         | _ -> []) in
       st := corrupt_all !st cs;
       let buf = Buffer.create 8192 in
